@@ -183,7 +183,17 @@ def main():
         print(f"{name:48s} compiles={compiles} suite_passes={tests} caught_by={caught_by} missed_by={[p for p in props if p not in caught_by]}", flush=True)
     clean()
     sh(["rm", "-rf", SCRATCH])
-    json.dump(results, open(os.path.join(ROOT, "tools", "mutants-result.json"), "w"), indent=1)
+    out_path = os.path.join(ROOT, "tools", "mutants-result.json")
+    if want and os.path.exists(out_path):
+        # a filtered run updates the entries it ran and keeps the others
+        old = {r["name"]: r for r in json.load(open(out_path))}
+        for r in results:
+            old[r["name"]] = r
+        order = [n for n, _, _ in todo]
+        merged = [old[n] for n in order if n in old]
+        json.dump(merged, open(out_path, "w"), indent=1)
+    else:
+        json.dump(results, open(out_path, "w"), indent=1)
     real = [r for r in results if not r["name"].startswith("EQUIVALENT-")]
     equiv = [r for r in results if r["name"].startswith("EQUIVALENT-")]
     missed = [r["name"] for r in real if not r.get("caught_by")]
